@@ -388,6 +388,17 @@ func sseDefaults() sseDef {
 }
 
 func genFloatCase(rng *rand.Rand) string {
+	if rng.Intn(12) == 0 {
+		// an interval whose product with the multiplier does not fit an int64 — a server retry value of 10^12 ms, a cap
+		// near the largest Duration after many failures — is capped all the same: the comparison is made before the product
+		cur := pick(rng, int64(1_000_000_000_000_000_000), 4_000_000_000_000_000_000, 9_000_000_000_000_000_000, int64(1)<<62)
+		mulF := pick(rng, 9.5, 10, 100.5, 3, 2.5)
+		if float64(cur)*mulF < 9.3e18 {
+			mulF = 100.5
+		}
+		maxI := pick(rng, int64(3_600_000_000_000), 1<<62, cur, cur+1, 9_223_372_036_854_775_807)
+		return fmt.Sprintf("FLOAT g %d %d %s", cur, maxI, floatToRat(mulF))
+	}
 	if rng.Intn(2) == 0 {
 		cur := int64(1) + rng.Int63n(int64(1)<<uint(1+rng.Intn(51)))
 		mulF := pick(rng, 1.0, 1.5, 2, 1.1, 1.25, 2.718281828, 1.000000001, 100.5, 1+rng.Float64()*3)
@@ -584,7 +595,7 @@ func genC13(rng *rand.Rand, n int, thorough bool, emit func(string)) {
 		case k < 30 && (thorough || k < 4): // the concurrent variant: a few in the quick tier, 3% in the thorough tier
 			emit(fmt.Sprintf("REGC %d %d %d %d", rng.Intn(1000), 1+rng.Intn(5), 1+rng.Intn(4), 20+rng.Intn(200)))
 		case k < 150:
-			emit("REG c " + genRegScript(rng, 25))
+			emit("REG " + pick(rng, "c", "w") + " " + genRegScript(rng, 25))
 		default:
 			emit("REG d " + genRegScript(rng, 40))
 		}
